@@ -39,6 +39,39 @@ struct Node {
     was_reset: bool,
 }
 
+/// what the post-hoc oracle needs of a node: its spec and its complete op log
+struct Rec {
+    spec: NodeSpec,
+    log: Vec<L>,
+    forked_at: Option<usize>,
+}
+
+impl Node {
+    fn into_rec(self) -> Rec {
+        Rec { spec: self.spec, log: self.log, forked_at: self.forked_at }
+    }
+    /// `self.clone_from(src)`: self becomes a copy of src (history and all); returns the record of its previous life
+    fn overwrite_from(&mut self, src: &Node) -> Option<Rec> {
+        if self.spec.kind != src.spec.kind {
+            return None;
+        }
+        let ok = on(Side::Subject, || self.sut.clone_from_sut(src.sut.as_ref()));
+        if !ok {
+            return None;
+        }
+        let old = Rec { spec: self.spec, log: std::mem::take(&mut self.log), forked_at: self.forked_at };
+        self.spec = NodeSpec { mode: self.spec.mode, ..src.spec };
+        if !(self.spec.kind.has_scalar()) && self.spec.mode == Mode::Scalar {
+            self.spec.mode = Mode::Bar;
+        }
+        self.log = src.log.clone();
+        self.forked_at = Some(src.log.len());
+        self.count = src.count;
+        self.was_reset = src.was_reset;
+        Some(old)
+    }
+}
+
 fn viol(class: &str, kind: Kind, step: usize, detail: String, expected: Vec<String>, got: Vec<String>) -> Violation {
     Violation {
         property: PROP.into(),
@@ -90,7 +123,7 @@ fn apply(node: &mut Node, i: usize, op: &Op) {
 }
 
 /// Solo replay of one node's log on the calling thread. Returns the first mismatch.
-fn solo_replay(id: usize, node: &Node, pass: u32) -> Option<Violation> {
+fn solo_replay(id: usize, node: &Rec, pass: u32) -> Option<Violation> {
     let kind = node.spec.kind;
     let mut fresh = on(Side::Reference, || build_spec(&node.spec));
     let mut seen = 0usize;
@@ -132,19 +165,32 @@ fn note(st: &mut Stats, node: &Node, op: &Op, live: usize, last_fault: Fault) {
 /// Stage A executor: one thread, the op list is the schedule.
 fn exec_single(sc: &Scenario, st: &mut Stats) -> Option<Violation> {
     let mut nodes: Vec<Option<Node>> = sc.nodes.iter().map(|s| Some(Node { sut: build_spec(s), spec: *s, log: vec![], forked_at: None, count: 0, was_reset: false })).collect();
-    let mut finished: Vec<(usize, Node)> = vec![];
+    let mut finished: Vec<(usize, Rec)> = vec![];
     let mut last_fault = Fault::Clean;
     for (i, op) in sc.ops.iter().enumerate() {
         st.op(op);
         match op {
-            Op::Fork { src, dst } => {
+            Op::Fork { src, dst, into: true } if src != dst && matches!(nodes.get(*src), Some(Some(_))) && matches!(nodes.get(*dst), Some(Some(_))) => {
+                // clone_from into a live instance of the same type
+                let mut d = nodes[*dst].take().unwrap();
+                let s = nodes[*src].as_ref().unwrap();
+                match d.overwrite_from(s) {
+                    Some(old) => {
+                        finished.push((*dst, old));
+                        st.bump("clone_from_into_live_instance");
+                    }
+                    None => st.bump("clone_from_skipped_different_type"),
+                }
+                nodes[*dst] = Some(d);
+            }
+            Op::Fork { src, dst, .. } => {
                 if let Some(Some(s)) = nodes.get(*src) {
                     let c = Node { sut: on(Side::Subject, || s.sut.fork()), spec: s.spec, log: s.log.clone(), forked_at: Some(s.log.len()), count: s.count, was_reset: s.was_reset };
                     while nodes.len() <= *dst {
                         nodes.push(None);
                     }
                     if let Some(old) = nodes[*dst].take() {
-                        finished.push((*dst, old));
+                        finished.push((*dst, old.into_rec()));
                     }
                     nodes[*dst] = Some(c);
                 }
@@ -152,7 +198,7 @@ fn exec_single(sc: &Scenario, st: &mut Stats) -> Option<Violation> {
             Op::Drop { n } => {
                 if let Some(slot) = nodes.get_mut(*n) {
                     if let Some(old) = slot.take() {
-                        finished.push((*n, old));
+                        finished.push((*n, old.into_rec()));
                     }
                 }
             }
@@ -174,14 +220,14 @@ fn exec_single(sc: &Scenario, st: &mut Stats) -> Option<Violation> {
     }
     for (id, n) in nodes.into_iter().enumerate() {
         if let Some(n) = n {
-            finished.push((id, n));
+            finished.push((id, n.into_rec()));
         }
     }
     verify(finished, st)
 }
 
 /// post-hoc check over the recorded history: solo replay of every node, twice
-fn verify(finished: Vec<(usize, Node)>, st: &mut Stats) -> Option<Violation> {
+fn verify(finished: Vec<(usize, Rec)>, st: &mut Stats) -> Option<Violation> {
     let mut digest = 0u64;
     let mut worst: Option<Violation> = None;
     let multi = finished.len() > 1;
@@ -217,13 +263,14 @@ enum Cmd {
     Exec(usize, Op),
     Take(usize),
     Put(usize, Node),
-    Fork(usize, usize),
+    Fork(usize, usize, bool),
     Finish,
 }
 enum Reply {
     None,
     Node(Option<Node>),
-    Done(Vec<(usize, Node)>),
+    Done(Vec<(usize, Rec)>),
+    Rec(Option<Rec>),
     Info(Option<(NodeSpec, u64, bool, bool)>),
 }
 
@@ -276,7 +323,15 @@ fn exec_threads(sc: &Scenario, st: &mut Stats) -> Option<Violation> {
                         mine.push((id, n));
                         (Reply::None, false)
                     }
-                    Some(Cmd::Fork(src, dst)) => {
+                    Some(Cmd::Fork(src, dst, true)) if src != dst && mine.iter().any(|(i, _)| *i == src) && mine.iter().any(|(i, _)| *i == dst) => {
+                        let dp = mine.iter().position(|(i, _)| *i == dst).unwrap();
+                        let (_, mut d) = mine.remove(dp);
+                        let s = &mine.iter().find(|(i, _)| *i == src).unwrap().1;
+                        let old = d.overwrite_from(s);
+                        mine.push((dst, d));
+                        (Reply::Rec(old), false)
+                    }
+                    Some(Cmd::Fork(src, dst, _)) => {
                         let c = mine.iter().find(|(i, _)| *i == src).map(|(_, s)| Node { sut: on(Side::Subject, || s.sut.fork()), spec: s.spec, log: s.log.clone(), forked_at: Some(s.log.len()), count: s.count, was_reset: s.was_reset });
                         let had = c.is_some();
                         if let Some(c) = c {
@@ -284,7 +339,7 @@ fn exec_threads(sc: &Scenario, st: &mut Stats) -> Option<Violation> {
                         }
                         (Reply::Info(if had { Some((mine.last().unwrap().1.spec, 0, false, true)) } else { None }), false)
                     }
-                    Some(Cmd::Finish) | None => (Reply::Done(std::mem::take(&mut mine)), true),
+                    Some(Cmd::Finish) | None => (Reply::Done(std::mem::take(&mut mine).into_iter().map(|(i, n)| (i, n.into_rec())).collect()), true),
                 });
                 let (reply, quit) = match r {
                     Ok(x) => x,
@@ -314,29 +369,44 @@ fn exec_threads(sc: &Scenario, st: &mut Stats) -> Option<Violation> {
         call(w, Cmd::Put(i, Node { sut: build_spec(s), spec: *s, log: vec![], forked_at: None, count: 0, was_reset: false }));
         owner.push(Some(w));
     }
-    let mut finished: Vec<(usize, Node)> = vec![];
+    let mut finished: Vec<(usize, Rec)> = vec![];
     let mut last_fault = Fault::Clean;
     for (i, op) in sc.ops.iter().enumerate() {
         st.op(op);
         match op {
-            Op::Fork { src, dst } => {
+            Op::Fork { src, dst, into: true } if src != dst && matches!(owner.get(*src), Some(Some(_))) && matches!(owner.get(*dst), Some(Some(_))) => {
+                // bring the destination to the source's thread, then clone_from there
+                let (ws, wd) = (owner[*src].unwrap(), owner[*dst].unwrap());
+                if ws != wd {
+                    if let Reply::Node(Some(node)) = call(wd, Cmd::Take(*dst)) {
+                        st.fault(Fault::Migrate);
+                        call(ws, Cmd::Put(*dst, node));
+                        owner[*dst] = Some(ws);
+                    }
+                }
+                if let Reply::Rec(Some(old)) = call(ws, Cmd::Fork(*src, *dst, true)) {
+                    finished.push((*dst, old));
+                    st.bump("clone_from_into_live_instance");
+                }
+            }
+            Op::Fork { src, dst, .. } => {
                 if let Some(Some(w)) = owner.get(*src).cloned() {
                     while owner.len() <= *dst {
                         owner.push(None);
                     }
                     if let Some(ow) = owner[*dst] {
                         if let Reply::Node(Some(old)) = call(ow, Cmd::Take(*dst)) {
-                            finished.push((*dst, old));
+                            finished.push((*dst, old.into_rec()));
                         }
                     }
-                    call(w, Cmd::Fork(*src, *dst));
+                    call(w, Cmd::Fork(*src, *dst, false));
                     owner[*dst] = Some(w);
                 }
             }
             Op::Drop { n } => {
                 if let Some(Some(w)) = owner.get(*n).cloned() {
                     if let Reply::Node(Some(old)) = call(w, Cmd::Take(*n)) {
-                        finished.push((*n, old));
+                        finished.push((*n, old.into_rec()));
                     }
                     owner[*n] = None;
                 }
@@ -491,8 +561,12 @@ pub fn generate(rng: &mut Rng, tier: Tier, workers: usize) -> Scenario {
                 }
             }
             75..=82 => {
-                if next_id < 8 {
-                    ops.push(Op::Fork { src: n, dst: next_id });
+                // sometimes clone_from into a live instance (its buffers get reused), else a new clone
+                let others: Vec<usize> = live.iter().cloned().filter(|x| *x != n).collect();
+                if !others.is_empty() && rng.chance(0.35) {
+                    ops.push(Op::Fork { src: n, dst: *rng.pick(&others), into: true });
+                } else if next_id < 8 {
+                    ops.push(Op::Fork { src: n, dst: next_id, into: false });
                     live.push(next_id);
                     next_id += 1;
                 }
@@ -570,7 +644,7 @@ fn corpus_scenario(idx: u64, specs: &[NodeSpec], ms: &[u8]) -> Scenario {
         for j in 0..(pair - 1) as usize {
             ops.push(seq_op(0, 0, j + 7, 0));
         }
-        ops.push(Op::Fork { src: 0, dst: 1 });
+        ops.push(Op::Fork { src: 0, dst: 1, into: false });
         vec![spec]
     };
     let (mut ja, mut jb) = (0, 0);
